@@ -315,6 +315,13 @@ class World:
             self.plain_down.add(s)
         self.obs_frozen.discard(s)      # the state record becomes "down"
 
+    def ev_DetachRack(self, r):
+        """An administrator takes a bucket out of the cell (its servers stay defined)."""
+        masterapi.cell_remove_bucket(self.admin, r)
+
+    def ev_AttachRack(self, r):
+        masterapi.cell_insert_bucket(self.admin, r)
+
     def ev_SetPartition(self, s, label):
         masterapi.update_server_attrs(self.admin, s, label)
 
